@@ -15,6 +15,7 @@ mod hashers;
 mod hist;
 mod model;
 mod orch;
+mod plain;
 mod queue;
 mod rng;
 mod sources;
